@@ -133,6 +133,23 @@ Router::~Router()
         delete obstaclePtr;
         obstacle = m_obstacles.begin();
     }
+
+    // Delete shapes and junctions whose addition is still queued: they never
+    // became active, so they are not in m_obstacles, but the router owns them.
+    std::vector<Obstacle *> queuedObstacles;
+    for (ActionInfoList::iterator curr = actionList.begin();
+            curr != actionList.end(); ++curr)
+    {
+        if (((curr->type == ShapeAdd) || (curr->type == JunctionAdd)) &&
+                !curr->obstacle()->isActive())
+        {
+            queuedObstacles.push_back(curr->obstacle());
+        }
+    }
+    for (size_t i = 0; i < queuedObstacles.size(); ++i)
+    {
+        delete queuedObstacles[i];
+    }
     m_currently_calling_destructors = false;
 
     // Cleanup orphaned orthogonal graph vertices.
